@@ -487,7 +487,8 @@ def run_tie(rep: Any, seed: int, big: bool, tables: List[Tuple[Dict[str, Any], b
                     cases.append(leg_case(a, b, src, {"fw": "X", "why": str(e)}))
                 meta.append({"case": "round", **m, "back": back})
 
-    n_gen = len(tables) if big else 300
+    n_fixed = sum(1 for _, f in tables if f)
+    n_gen = n_fixed + (4000 if big else 220)          # index bound into `tables` (corpus first)
     for ti, (t, is_fixed) in enumerate(tables):
         if not is_fixed and ti >= n_gen:
             break
@@ -522,13 +523,18 @@ def run_tie(rep: Any, seed: int, big: bool, tables: List[Tuple[Dict[str, Any], b
     rep.count(len(cases))
     # inside the tolerance domain a result that satisfies the specification is accepted: count how often that (and not
     # equality with the model) is what made the case pass -- > 0 means the model no longer describes the code there
-    dom = [i for i, m in enumerate(meta) if i not in set(bad) and _in_tolerance_domain(m)]
+    badset = set(bad)
+    dom = [i for i, m in enumerate(meta) if i not in badset and _in_tolerance_domain(m)]
+    st["cases_in_tolerance_domain"] = len(dom)
+    cap = 2000 if big else 240
+    if len(dom) > cap:                                  # evenly thinned: a repair changes every case of the domain alike
+        dom = [dom[(k * len(dom)) // cap] for k in range(cap)]
     stale: List[int] = []
     if dom:
         sbad, _ = vlib.run_cases("C14", "conv_exact", REQ, "chk_conv_exact", [cases[i] for i in dom], case_type=CASE_TY,
                                  extra_defs=EXTRA, shard=max(60, -(-len(dom) // max(1, vlib.NCPU - 2))))
         stale = [dom[k] for k in sbad]
-    st["cases_in_tolerance_domain"] = len(dom)
+    st["tolerance_domain_cases_re_evaluated_against_the_model_alone"] = len(dom)
     st["accepted_by_specification_not_by_model"] = len(stale)
     if stale:
         m = meta[stale[0]]
